@@ -177,6 +177,17 @@ class Ctx:
                 for dv in v["dev"]:
                     self.known(dv, "%s scenario %s" % (label or module, s.get("name", i)))
             else:
+                # a clause that says the harness itself produced an invalid history is a machinery error - unless the
+                # implementation had already contradicted the specification at an earlier event of the scenario: what the
+                # harness does after that rests on a state the implementation is not in
+                isharness = lambda c: c.startswith("harness-") or c == "unknown-event"
+                hc = [c for c in v["why"] if isharness(c)]
+                if hc:
+                    first = v.get("first") or v["why"]
+                    if any(isharness(c) for c in first):
+                        raise Machinery("the harness produced an invalid history (scenario %s, event %s): %s"
+                                        % (s.get("name", i), v["line"], ",".join(hc)))
+                    v = dict(v, why=[c for c in v["why"] if not isharness(c)], consequences=hc)
                 for c in v["why"]:
                     self.clauses[c] = self.clauses.get(c, 0) + 1
                 mine = [c for c in v["why"] if relevant is None or relevant(c)]
